@@ -180,8 +180,8 @@ VF_ZCFG_END
 VF_ZCFG_BEGIN(17, 7, false, true, P5_1, 4, 7, 2)   // odd payload size, headless + manual + reference context
 	static constexpr int inj(int i) { return i == 2 ? 2 : 0; } static constexpr int headInj() { return 0; } static constexpr bool bare(int) { return false; }
 VF_ZCFG_END
-VF_ZCFG_BEGIN(18, 5, true, false, P320_64, 12, 3, 1)   // 320-byte / 64-aligned payload, a substitution limit between the small ones and 255
-	static constexpr int inj(int i) { return i == 4 ? 1 : 0; } static constexpr int headInj() { return 0; } static constexpr bool bare(int) { return false; }
+VF_ZCFG_BEGIN(18, 5, true, false, P320_64, 12, 3, 1)   // 320-byte / 64-aligned payload, a substitution limit between the small ones and 255, 4 and 5 injections
+	static constexpr int inj(int i) { return i == 4 ? 1 : i == 2 ? 5 : i == 1 ? 4 : 0; } static constexpr int headInj() { return 0; } static constexpr bool bare(int) { return false; }
 VF_ZCFG_END
 static constexpr int ZOO_COUNT = 19;
 
@@ -304,6 +304,8 @@ template <int CFG, int I> struct StBase<CFG, I, 0> { using type = typename Zoo<C
 template <int CFG, int I> struct StBase<CFG, I, 1> { using type = typename Zoo<CFG>::FSM::template StateT<Inj<CFG, I, 0>>; };
 template <int CFG, int I> struct StBase<CFG, I, 2> { using type = typename Zoo<CFG>::FSM::template StateT<Inj<CFG, I, 0>, Inj<CFG, I, 1>>; };
 template <int CFG, int I> struct StBase<CFG, I, 3> { using type = typename Zoo<CFG>::FSM::template StateT<Inj<CFG, I, 0>, Inj<CFG, I, 1>, Inj<CFG, I, 2>>; };
+template <int CFG, int I> struct StBase<CFG, I, 4> { using type = typename Zoo<CFG>::FSM::template StateT<Inj<CFG, I, 0>, Inj<CFG, I, 1>, Inj<CFG, I, 2>, Inj<CFG, I, 3>>; };
+template <int CFG, int I> struct StBase<CFG, I, 5> { using type = typename Zoo<CFG>::FSM::template StateT<Inj<CFG, I, 0>, Inj<CFG, I, 1>, Inj<CFG, I, 2>, Inj<CFG, I, 3>, Inj<CFG, I, 4>>; };
 
 template <int CFG, int I>
 struct StT<CFG, I, 0> : StBase<CFG, I, ZCfg<CFG>::inj(I)>::type {
@@ -316,6 +318,8 @@ struct StT<CFG, I, 0> : StBase<CFG, I, ZCfg<CFG>::inj(I)>::type {
 		if constexpr (ZCfg<CFG>::inj(I) >= 1) h = h * 31 + static_cast<const Inj<CFG, I, 0>*>(this)->seen;
 		if constexpr (ZCfg<CFG>::inj(I) >= 2) h = h * 31 + static_cast<const Inj<CFG, I, 1>*>(this)->seen;
 		if constexpr (ZCfg<CFG>::inj(I) >= 3) h = h * 31 + static_cast<const Inj<CFG, I, 2>*>(this)->seen;
+		if constexpr (ZCfg<CFG>::inj(I) >= 4) h = h * 31 + static_cast<const Inj<CFG, I, 3>*>(this)->seen;
+		if constexpr (ZCfg<CFG>::inj(I) >= 5) h = h * 31 + static_cast<const Inj<CFG, I, 4>*>(this)->seen;
 		return h;
 	}
 };
